@@ -484,7 +484,23 @@ func (f *Frame) havocTargets(st *State, t *Targets, declaredInside func(types.Ob
 			}
 			vc.heapSet(st, key, vc.define("h", cur))
 		} else {
-			vc.heapSet(st, key, vc.fresh("hv", srt))
+			hv := vc.fresh("hv", srt)
+			vc.heapSet(st, key, hv)
+			// a field of struct type S is written through pointers to S only: objects of every other dynamic type keep
+			// their row (typeof facts identify them). Needs the struct type, which a written base expression supplies.
+			for _, b := range bases {
+				if b == nil {
+					continue
+				}
+				if pt, ok := f.subst(f.info().TypeOf(b)).Underlying().(*types.Pointer); ok {
+					if _, isStruct := pt.Elem().Underlying().(*types.Struct); isStruct && fieldKeyOwner(key) == structName(pt.Elem()) {
+						r := Term{"r!", SInt}
+						vc.assume(st, Forall([]Term{r}, Imp(Not(Eq(app(SInt, "typeof", r), IntLit(int64(vc.tagOf(pt))))),
+							Eq(Select(hv, r), Select(cur, r))), Select(hv, r)))
+						break
+					}
+				}
+			}
 		}
 	}
 	// A write through a map expression of static type T can only change maps whose dynamic type is T. When a map
@@ -657,7 +673,7 @@ func (f *Frame) runLoop(st *State, s ast.Stmt, label string, bodyNodes []ast.Nod
 	lname := loopName(ls, vc.posStr(s.Pos()))
 	// 1. invariant on entry
 	if ls != nil {
-		invs := f.loopInvariants(st, ls, s.Pos(), special(st))
+		invs := f.loopInvariants(st, ls, invPos(s), special(st))
 		for i, c := range ls.Invs {
 			vc.oblige(st, lname+".entry."+c.Label, "inv.entry", invs[i], s.Pos(), vc.srcText(ls.Pkg, c.Expr))
 		}
@@ -671,7 +687,7 @@ func (f *Frame) runLoop(st *State, s ast.Stmt, label string, bodyNodes []ast.Nod
 	}
 	vc.assume(head, autoInv(head))
 	if ls != nil {
-		invs := f.loopInvariants(head, ls, s.Pos(), special(head))
+		invs := f.loopInvariants(head, ls, invPos(s), special(head))
 		for _, c := range invs {
 			vc.assume(head, c)
 		}
@@ -709,7 +725,7 @@ func (f *Frame) runLoop(st *State, s ast.Stmt, label string, bodyNodes []ast.Nod
 	for bi, back := range backStates {
 		post(back)
 		if ls != nil {
-			invs := f.loopInvariants(back, ls, s.Pos(), special(back))
+			invs := f.loopInvariants(back, ls, invPos(s), special(back))
 			suffix := ""
 			if len(backStates) > 1 {
 				suffix = fmt.Sprintf("#%d", bi+1)
@@ -1027,4 +1043,28 @@ func (f *Frame) yieldSeq(it Term, elem types.Type) Term {
 func (f *Frame) isMethodValue(se *ast.SelectorExpr) bool {
 	sel, ok := f.info().Selections[se]
 	return ok && sel.Kind() == types.MethodVal
+}
+
+// invPos: where the parameters of a loop invariant are looked up by name. For a three-clause loop that declares its
+// variable (`for i := 0; ...`) this is the start of the body, so that the invariant can name the variable.
+func invPos(s ast.Stmt) token.Pos {
+	if fs, ok := s.(*ast.ForStmt); ok && fs.Init != nil && fs.Body != nil {
+		return fs.Body.Lbrace
+	}
+	return s.Pos()
+}
+
+// fieldKeyOwner: the struct name inside a field heap key "F:<struct>.<field path>".
+func fieldKeyOwner(key string) string {
+	k := strings.TrimPrefix(key, "F:")
+	// the struct name itself contains one dot (pkg.Type); the field path follows the second
+	i := strings.Index(k, ".")
+	if i < 0 {
+		return k
+	}
+	j := strings.Index(k[i+1:], ".")
+	if j < 0 {
+		return k
+	}
+	return k[:i+1+j]
 }
